@@ -16,6 +16,13 @@ PREF = {
        "happens to the guarantee right after a handled / ignored exception, an early return, a `continue`, or the clean-up in a `finally`; "
        "(c) a bug that needs VOLUME: it shows only after many operations - the second chunk of a chunked loop, a flush every k records, a "
        "buffer or cache that reaches its limit, a counter that passes a threshold. It must still be realistic and keep all 81 tests passing."),
+ 'f': ("PREFERRED this time, one of: (a) a bug in an ALTERNATIVE ENTRY POINT or second implementation of the same functionality - a second "
+       "copy of a function in another module, the command line wrapper versus the library function behind it, a convenience wrapper / class "
+       "method / alternative constructor, a code path selected by a flag that is off by default, a method of a SUBCLASS that overrides the "
+       "behaviour - so that the main path stays correct; (b) a bug in how results are WRITTEN OUT or READ BACK (writing, flushing, closing, "
+       "naming of output files, table headers, tag types) rather than in how they are computed; (c) an arithmetic slip that only shows for "
+       "LARGE or UNUSUAL magnitudes (coordinates beyond 2^31, very long reads or names, qualities above 41, more than 255 / 65535 of "
+       "something). It must still be realistic and keep all 81 tests passing."),
 }
 props = [json.loads(l) for l in open(os.path.join(V, 'properties.jsonl'))]
 tmpl = open('/tmp/agent_prompt_template.txt').read() if os.path.exists('/tmp/agent_prompt_template.txt') else None
